@@ -25,14 +25,14 @@ ASSUMPTIONS = [
     'composite keys have at least one part (Pony: at least two); the empty list and the list holding one empty string share the key "" (stated as reduce_empty_collision)',
     'search model: entity A (automatic key), B (composite key of two strings, optional reference to A), C (composite key = reference to B + int); states = committed rows plus pending '
     'attribute changes, new objects and deletions in the serialising session; pickling is judged on committed, unmodified objects (Pony refuses to pickle modified ones)',
-    'lazy attributes, inheritance, Decimal/date columns, EntityProxy, Database.to_json (permission-aware front-end format) are outside the check',
+    'lazy attributes, inheritance, Decimal/date columns, EntityProxy and the permission filter of Database.to_json (every entity is viewable by anybody in the check) are outside the check',
 ]
 RULE = ('correspondence: every tuple of 1..3 key parts over the strings of length <= 2 (<= 1 for triples) of the alphabet {",", "*", "\\\\", "a"} plus seeded longer keys over a wider alphabet '
         '(quotes, space, non-ASCII) and ints; str.replace/join reference cases; Bag traversal marks on seeded object graphs. search: seeded scenarios (1-3 A, 1-4 B with adversarial key parts, '
         '0-2 C each, 0-3 pending modifications, a shuffled subset of objects given) + one scenario with all 36 key pairs over six colliding-looking parts. '
         'non-trivial = key contains an escape or separator character / scenario has pending modifications or more than one given object; distinct = distinct canonical inputs')
 
-HEADER = 'Require Import PonyV.Base.PyBase PonyV.Model.C31Codec PonyV.Gen.C31Reduce PonyV.Model.C31Bag PonyV.Model.C31Flush PonyV.Model.C31Pickle.\nOpen Scope Z_scope.\n'
+HEADER = 'Require Import PonyV.Base.PyBase PonyV.Model.C31Codec PonyV.Gen.C31Reduce PonyV.Model.C31Bag PonyV.Model.C31Flush PonyV.Model.C31Pickle PonyV.Model.C31ToJson.\nOpen Scope Z_scope.\n'
 
 def czs(s):
     return '[' + '; '.join(str(ord(c)) for c in s) + ']' if s else '(@nil Z)'
@@ -158,6 +158,41 @@ def gen_pending(rng):
     pool = [['g', i] for i in range(ng)] + [['k', i] for i in range(nk)] + [['s', i] for i in range(ns)]
     probe = [list(x) for x in rng.sample(pool, rng.randint(1, len(pool)))]
     return {'groups': n_g, 'courses': n_k, 'students': studs, 'preload': preload, 'mods': mods, 'probe': probe, 'related_objects': rng.random() < 0.3}
+
+
+def gen_to_json(rng):
+    sc = gen_pending(rng)
+    sc['include'] = [n for n in I.INCLUDABLE if rng.random() < 0.5]
+    sc['schema'] = rng.choice(['none', 'none', 'full', 'hash'])
+    drop = rng.random() < 0.6                                  # mostly without pending inserts
+    mods, ns, ng, nk = [], len(sc['students']), sc['groups'], sc['courses']
+    for m in sc['mods']:
+        t = m[0]
+        if drop and t in ('new_s', 'new_k'): continue
+        if t == 'new_s':
+            if (m[1] is not None and m[1] >= ng) or any(c >= nk for c in m[2]): continue
+            ns += 1
+        elif t == 'new_k':
+            if any(x >= ns for x in m[1]): continue
+            nk += 1
+        elif t == 'new_g': ng += 1
+        elif t == 'move_s':
+            if m[1] >= ns or (m[2] is not None and m[2] >= ng): continue
+        elif t == 'enroll':
+            if m[1] >= ns or m[2] >= nk: continue
+        mods.append(m)
+    sc['mods'] = mods
+    n_g = sc['groups'] + sum(1 for m in sc['mods'] if m[0] == 'new_g'); n_k = sc['courses'] + sum(1 for m in sc['mods'] if m[0] == 'new_k')
+    n_s = len(sc['students']) + sum(1 for m in sc['mods'] if m[0] == 'new_s')
+    sc['probe'] = [p for p in sc['probe'] if p[1] < {'g': n_g, 'k': n_k, 's': n_s}[p[0]]] or [['g', 0]]
+    return sc
+
+TO_JSON_FIXED = [
+    dict(groups=2, courses=2, students=[[0, [0, 1]], [0, [0]]], preload=[], mods=[], probe=[['s', 0]], include=[], schema='none'),
+    dict(groups=2, courses=2, students=[[0, [0, 1]], [0, [0]]], preload=[], mods=[], probe=[['g', 0]], include=['G.students', 'S.courses', 'K.students'], schema='full'),
+    dict(groups=2, courses=2, students=[[0, [0, 1]], [0, [0]]], preload=[], mods=[], probe=[['s', 1], ['g', 1]], include=['S.group'], schema='hash'),
+    dict(groups=2, courses=2, students=[[0, [0, 1]], [0, [0]]], preload=[], mods=[['move_s', 1, 1], ['enroll', 1, 1]], probe=[['g', 0], ['g', 1]], include=['G.students', 'S.courses'], schema='none'),
+]
 
 
 def pending_members(sc):
@@ -341,6 +376,20 @@ def correspondence(ctx):
             add('pickle_set', 'natlist_eqb (unpickle_set %s %s %s (fun _ => true)) %s' % (kc, nl(before if pre else []), nl(before), nl(after)), [kind, pre], [before, after, fresh])
             if fresh != after: disagreements.append({'what': 'a fresh read of the collection differs from the unpickled wrapper', 'input': [kind, pre], 'impl': [after, fresh]})
 
+    # (6) Database.to_json: sections, and which objects the "objects" section holds, against the worklist model
+    for sc in TO_JSON_FIXED + [gen_to_json(rng) for _ in range(ctx.scale(80, 800))]:
+        r = I.db_to_json_case(sc)
+        if 'error' in r or r['pending']: continue           # pending inserts: see the finding; the search covers them
+        n = len(r['universe'])
+        succc = '(fun o => match o with %s | _ => [] end)' % ' '.join('| %d%%nat => [%s]' % (o, '; '.join('%d%%nat' % x for x in r['succ'][o])) for o in range(n))
+        rootsc = '[' + '; '.join('%d%%nat' % x for x in r['roots']) + ']'
+        conj = ' && '.join('Bool.eqb (mem %d%%nat (snd d)) %s' % (o, 'true' if o in r['present'] else 'false') for o in range(n))
+        secs = {'data': 'SData', 'objects': 'SObjects', 'schema': 'SSchema', 'schema_hash': 'SSchemaHash'}
+        order = [k for k in ('data', 'objects', 'schema', 'schema_hash') if k in r['parsed']]
+        add('db_to_json', '(let d := to_json_objects %d%%nat %s %s in match fst d with [] => true | _ => false end && %s) && sections_eqb (to_json_sections %s %s) [%s]'
+            % (n + 1, succc, rootsc, conj, 'false' if r['mode'] == 'none' else 'true', 'true' if r['mode'] == 'hash' else 'false', '; '.join(secs[k] for k in order)),
+            {'scenario': sc}, {'present': r['present'], 'sections': order})
+
     bad = run_bools(ctx, exprs)
     for i in bad[:20]:
         kind, inp, impl = meta[i]
@@ -417,6 +466,14 @@ def search(ctx, deep):
         f = Failure(key, '%s: %s' % (cls, json.dumps(detail, default=str)[:300]), {'pickle_sets': True, 'class': cls})
         per_key[f.key] = per_key.get(f.key, 0) + 1
         if per_key[f.key] == 1: failures.append(f)
+    for sc in TO_JSON_FIXED + [gen_to_json(ctx.rng) for _ in range(2000 if deep else 200)]:
+        evals += 1
+        nontriv.add(json.dumps(sc, sort_keys=True))
+        for cls, detail in I.check_db_to_json(sc):
+            key = 'database-to_json-new-object-pk-null' if cls == 'db.to_json:new-object-pk-null' else 'unlisted:' + cls
+            f = Failure(key, '%s: %s' % (cls, json.dumps(detail, default=str)[:300]), {'to_json_scenario': sc, 'class': cls})
+            per_key[f.key] = per_key.get(f.key, 0) + 1
+            if per_key[f.key] == 1: failures.append(f)
     pend = list(PENDING_FIXED) + [gen_pending(ctx.rng) for _ in range(3000 if deep else 250)]
     for sc in pend:
         res = I.check_pending(sc)
@@ -436,6 +493,11 @@ def replay(ctx, data):
     if data.get('pickle_sets'):
         for cls, detail in I.check_pickle_sets():
             return Failure('unlisted:' + cls + ':' + detail.get('kind', ''), '%s: %s' % (cls, json.dumps(detail, default=str)[:300]), data)
+        return None
+    if 'to_json_scenario' in data:
+        for cls, detail in I.check_db_to_json(data['to_json_scenario']):
+            key = 'database-to_json-new-object-pk-null' if cls == 'db.to_json:new-object-pk-null' else 'unlisted:' + cls
+            return Failure(key, '%s: %s' % (cls, json.dumps(detail, default=str)[:300]), data)
         return None
     if 'pending_scenario' in data:
         for cls, detail in I.check_pending(data['pending_scenario']):
@@ -461,6 +523,6 @@ LEVEL_TEXT = ('Machine-checked proof (Coq 8.16.1) that the composite-key encodin
               'keep items and order, collection wrappers get their items back. The complement of the first (given object also related) is a recorded finding with '
               'witnesses. to_dict/to_json VALUES against the current session state are checked by differential search on SQLite, not proved.')
 LEVEL_NOTE = ('Trusted: Coq kernel + vm_compute; the translator and source scans; str() injectivity per key column; the hand-written traversal / flush / pickling models (tied by vm_compute '
-              'correspondence with real runs, not derived from source); the correspondence harness. Database.to_json (front-end format with schema section), lazy attributes, inheritance are not covered.')
+              'correspondence with real runs, not derived from source); the correspondence harness. Database.to_json: sections and the closure of its objects section are modelled and proved, its values (and the permission filter, lazy/inherited attributes) are tested only.')
 TECHNIQUE = 'Coq proof of injectivity via an explicit decoder over a function regenerated from source by py2coq; vm_compute correspondence on adversarial keys and Bag traversals; shadow-state differential search'
 DESIGN_REF = 'DESIGN.md section 5, C31'
